@@ -25,12 +25,19 @@ pub struct Ctx {
 }
 
 impl Ctx {
-    pub fn pick<T>(&self, quick: T, thorough: T) -> T {
-        if self.tier == Tier::Quick {
-            quick
-        } else {
-            thorough
+    pub fn pick<T: Copy + 'static>(&self, quick: T, thorough: T) -> T {
+        let v = if self.tier == Tier::Quick { quick } else { thorough };
+        // NLV_LIGHT (tools/kill_matrix.sh): a quarter of the generated cases of the quick tier; enumerations and directed
+        // families are not affected. Used only to fill in the table of which check catches which seeded change.
+        if self.tier == Tier::Quick && std::env::var("NLV_LIGHT").is_ok() {
+            if let Some(x) = (&v as &dyn std::any::Any).downcast_ref::<u32>() {
+                let y: u32 = (*x / 4).max(1);
+                if let Some(z) = (&y as &dyn std::any::Any).downcast_ref::<T>() {
+                    return *z;
+                }
+            }
         }
+        v
     }
 }
 
